@@ -196,10 +196,12 @@ func NewSingleHostReverseProxy(target *url.URL, without string, keepalive int, t
 				prefer(target.Opaque, target.Path),
 				prefer(req.URL.Opaque, req.URL.Path))
 		}
+		// (EscapedPath, not Path, is the fallback for a side that has no
+		// RawPath: joining a decoded path to an encoded one yields an
+		// invalid RawPath, which net/url then discards together with the
+		// escapes of the other side, e.g. the %2F of a base path.)
 		if req.URL.RawPath != "" || target.RawPath != "" {
-			req.URL.RawPath = singleJoiningSlash(
-				prefer(target.RawPath, target.Path),
-				prefer(req.URL.RawPath, req.URL.Path))
+			req.URL.RawPath = singleJoiningSlash(target.EscapedPath(), req.URL.EscapedPath())
 		}
 		req.URL.Path = singleJoiningSlash(target.Path, req.URL.Path)
 
